@@ -116,13 +116,16 @@ def finish(prop, tier, t0, *, level, coverage, assumptions, cex, inconclusive, s
     known_hits = {}
     not_reproduced = 0
     seen_sigs = set()
+    reproduced_clauses = {c["clause"] for c, r in zip(to_replay, results) if r.get("reproduced")}
     for c, r in zip(to_replay, results):
         if r.get("reproduced") is None:
-            inconclusive.append("replay error: " + str(r.get("error"))[:300])
+            if c["clause"] not in reproduced_clauses:
+                inconclusive.append("replay error: " + str(r.get("error"))[:300])
             continue
         if not r["reproduced"]:
             not_reproduced += 1
-            inconclusive.append(f"counterexample for clause {c['clause']} did not reproduce on the real code: {r.get('detail', '')[:200]}")
+            if c["clause"] not in reproduced_clauses:
+                inconclusive.append(f"counterexample for clause {c['clause']} did not reproduce on the real code: {r.get('detail', '')[:200]}")
             continue
         sig = r.get("sig", {})
         sig.setdefault("clause", c["clause"])
